@@ -3,7 +3,7 @@ from __future__ import annotations
 
 import ast
 
-from .. import astu, evid, types
+from .. import astu, evid, flow, types
 from ..cfg import cfg_of
 from ..model import AnalysisError, Func
 from ..report import key_of
@@ -363,6 +363,13 @@ def r5(R, repo):
              'it silently keeps the template\'s value' % astu.short(one_sided[0]))
       continue
     tp_, sp_ = astu.params(f.node)[0], astu.params(f.node)[1]
+    # a handler may never hand the template back as the restored value: whatever was saved (including nothing) must be consumed or rejected
+    keep = [n_ for n_ in c.nodes if isinstance(n_.stmt, ast.Return) and isinstance(n_.stmt.value, ast.Name) and n_.stmt.value.id == tp_ and not [d_ for d_ in flow.defs(f, tp_) if isinstance(d_[0], ast.AST)]]
+    if keep:
+      g_ = [t_ for t_ in c.nodes if t_.kind == 'if' and (c.edge_guarded(keep[0], t_, 'T') or c.edge_guarded(keep[0], t_, 'F'))]
+      R.fail(key_of(f, 'mismatch raises with the path before restoring children'), (f, keep[0].stmt), '%s returns its template argument `%s` unchanged%s: a saved state that does not match the target (e.g. None saved for a populated node) is accepted silently and the template\'s values are kept' % (
+          qual, tp_, (' when `%s`' % astu.short(g_[-1].ast)) if g_ else ''))
+      continue
     size_one_sided = [x for n_ in c.nodes if n_.kind == 'if' and any(c.edge_guarded(r_, n_, 'T') or c.edge_guarded(r_, n_, 'F') for r_ in named) for x in ast.walk(n_.ast)
                       if isinstance(x, ast.Compare) and len(x.ops) == 1 and isinstance(x.ops[0], (ast.LtE, ast.GtE, ast.Lt, ast.Gt))
                       and any(({'len(%s)' % a_} & {astu.src(e_) for e_ in evid.expand(f, x.left) if isinstance(e_, ast.AST)}) and ({'len(%s)' % b_} & {astu.src(e_) for e_ in evid.expand(f, x.comparators[0]) if isinstance(e_, ast.AST)})
